@@ -19,6 +19,11 @@ def rand_grid(rng, max_players=3, max_measures=4, keysounds=True, cols=None):
             rows = rng.choice(ROWS)
             if rows > 48 and rng.random() < 0.7:
                 rows = rng.choice(ROWS[:10])
+            r = rng.random()
+            if r < 0.08:
+                rows = rng.randrange(1, 200)                      # "any rows per measure": not only the usual subdivisions
+            elif r < 0.11 and cols <= 6:
+                rows = 48 * rng.choice([3, 5, 6, 8, 12, 16])      # finer than the 1/48 tick grid
             m = []
             for _ in range(rows):
                 row = []
